@@ -75,7 +75,7 @@ From Coq Require Import Lia.
 (* header, one frame per block (5-bit width, bit length, the block's own closed bit stream: mode byte,
    length, optional checksum, the bytes), end marker - written through the bit-stream model and parsed
    back by the reader model: for every valid configuration, every list of non-empty blocks of at most
-   8 MiB (and at most the block size), any checksum function of the right width, any read-buffer size
+   the block size (up to its maximum of 1 GiB: blocks above 8 MiB go through several arrays of the NONE coder, block streams above 2^30 bits through several arrays of the frame), any checksum function of the right width, any read-buffer size
    (multiple of 8) and chunk schedule of the source, the reader gets the same configuration and exactly
    the blocks, in order, then the end marker.  Nothing is assumed about a codec here: the stages are the
    identity and everything else is modelled. *)
@@ -108,12 +108,12 @@ From KV Require Import Proofs.BinCoderProofs Proofs.EndToEnd.
    model turns them into the bytes of the compressed stream; the reader models parse those bytes (any
    buffer size, any short-read schedule of the source) and the Reader state machine serves any sequence
    of Read calls from the frames: the caller gets back exactly what was written, then end of stream.
-   NONE / NONE pipeline, block size up to 8 MiB, every job count and size hint on both sides. *)
+   NONE / NONE pipeline, every block size, every job count and size hint on both sides. *)
 Theorem C01_end_to_end_none : forall (hash : list N -> N) (evalid tvalid : N -> bool) c jw hw jr hr
     (ws : list (list N)) (ns : list N) nframes rbuf sched,
   cfg_ok evalid tvalid c ->
   (h_ck c = 1%N -> forall l, (hash l < 2 ^ 32)%N) -> (h_ck c = 2%N -> forall l, (hash l < 2 ^ 64)%N) ->
-  (h_bsize c <= 8388608)%N -> bytes_ok (concat ws) -> (length (concat ws) < nframes)%nat ->
+  bytes_ok (concat ws) -> (length (concat ws) < nframes)%nat ->
   (0 < jw)%N -> (0 < jr)%N -> (0 < rbuf)%N -> (rbuf mod 8 = 0)%N ->
   let B := h_bsize c in
   exists s1 s2 frames,
@@ -129,7 +129,7 @@ From KV Require Import Model.XXHash Proofs.XXHashProofs.
 Theorem C01_end_to_end_none_xxhash : forall (evalid tvalid : N -> bool) c jw hw jr hr
     (ws : list (list N)) (ns : list N) nframes rbuf sched,
   cfg_ok evalid tvalid c ->
-  (h_bsize c <= 8388608)%N -> bytes_ok (concat ws) -> (length (concat ws) < nframes)%nat ->
+  bytes_ok (concat ws) -> (length (concat ws) < nframes)%nat ->
   (0 < jw)%N -> (0 < jr)%N -> (0 < rbuf)%N -> (rbuf mod 8 = 0)%N ->
   let B := h_bsize c in let hash := block_hash (h_ck c) in
   exists s1 s2 frames,
